@@ -968,8 +968,15 @@ package router
 //@ func (h *httpHandler) readReqMsg(w http.ResponseWriter, req *http.Request) (m *dnsmsg.Msg)
 //@   props C01 C20
 //@   requires h != nil && h.logger != nil && w != nil && req != nil && req.URL != nil
+//@   ghost gLR io.Reader = nil
+//@   ghost gN int64 = 0
+//@   aftercall LimitReader?: gLR = ret0
+//@   aftercall LimitReader?: gN = arg1
 //@   modifies nothing
 //@   ensures m != nil ==> fresh(m) && wfMsg(m) && !attr(released, m)
+//@   callsite ReadFrom?: [C01:request-body-read-through-the-64k-limit] arg1 == gLR && gN == 65535
+//@   callsite LimitReader?: [C01:bounded-body] arg0 == req.Body
+//@   callsite GetBuf?: [C01:bounded-decode-buffer] arg0 <= 65535
 
 // ServeHTTP: a request refused by the limiter gets status 503 and nothing else: its body is not read, no query
 // is decoded or handled, nothing is forwarded. An admitted request is handled at most once and gets at most one
